@@ -1451,3 +1451,54 @@ def resubrepl(repo):
         raise AnalysisError(f"only {res.instances} re.sub calls found in the compiler")
     res.analysed = ["compiler/**/*.py"]
     return res
+
+
+def paramcopy(repo, templates):
+    """R-PARAMCOPY (C20/C01): the converting constructor and the converting `operator=` of a generated view are siblings:
+    both must transfer the storage *and* the runtime parameters (each `<p>_` and `parameters_initialized_`).  Decided: the
+    structure template's converting operator= contains the `${parameter_copy_assignments}` slot next to the storage
+    assignment, and the generator appends to `parameter_copy_assignments` at every place where it appends to
+    `parameter_copy_initializers` (same enclosing statement list), and hands the list to the template."""
+    res = RuleResult("R-PARAMCOPY")
+    sv = templates.templates.get("structure_view_class")
+    if sv is None:
+        raise AnalysisError("template structure_view_class vanished")
+    text = sv["text"]
+    res.instances += 1
+    om = re.search(r"operator=\s*\(\s*const\s+Generic\$\{name\}View<OtherStorage>[^)]*\)\s*\{(.*?)\n  \}", text, re.S)
+    if not om:
+        raise AnalysisError("structure_view_class: converting operator= not found")
+    if "${parameter_copy_assignments}" not in om.group(1):
+        res.add(f"{TEMPLATES}|structure_view_class|operator=|parameters", "the converting operator= assigns the storage only; the "
+                "converting constructor also copies the runtime parameters: after `v = w` a parameterised view is not Ok() (or "
+                "keeps its old parameters and misreads the new buffer)", TEMPLATES, sv["line"], "structure_view_class")
+    hg = repo.mod("compiler/back_end/cpp/header_generator.py")
+    gen = None
+    for f in hg.funcs.values():
+        if "parameter_copy_initializers" in ast.unparse(f.node):
+            gen = f
+    if gen is None:
+        raise AnalysisError("header_generator: the generator of parameter_copy_initializers was not found")
+
+    def appends(listname):
+        out = []
+        parents = {}
+        for n in ast.walk(gen.node):
+            for c in ast.iter_child_nodes(n):
+                parents[id(c)] = n
+        for n in walk_no_nested_funcs(gen.node):
+            if isinstance(n, ast.Expr) and isinstance(n.value, ast.Call) and isinstance(n.value.func, ast.Attribute) \
+                    and n.value.func.attr == "append" and ast.unparse(n.value.func.value) == listname:
+                out.append(id(parents[id(n)]))
+        return out
+    a, b = appends("parameter_copy_initializers"), appends("parameter_copy_assignments")
+    res.instances += max(len(a), 1)
+    if sorted(a) != sorted(b):
+        res.add(f"{hg.rel}|{gen.qualname}|assignments", f"{gen.qualname} appends to parameter_copy_initializers in {len(a)} place(s) but to "
+                f"parameter_copy_assignments in {len(b)} (or in other blocks): the assignment does not transfer everything the "
+                "constructor does", hg.rel, gen.node.lineno, gen.qualname)
+    if "parameter_copy_assignments=" not in ast.unparse(gen.node).replace(" ", ""):
+        res.add(f"{hg.rel}|{gen.qualname}|not-passed", "parameter_copy_assignments is not handed to the structure template", hg.rel,
+                gen.node.lineno, gen.qualname)
+    res.analysed = [TEMPLATES, hg.rel]
+    return res
